@@ -53,7 +53,7 @@ def check(ctx):
     proved = ctx.prove("props/C01.v", ["proofs/PolyDomainFacts.v", "proofs/TacticsFacts.v", "proofs/AlgebraSound.v", "proofs/WrapGenCompose.v"])
     ctx.build(["model/PolyDomain.vo", "base/Farkas.vo"])
     rng = random.Random(ctx.seed + 1)
-    n = (150 if ctx.quick else 8000) * (1 if proved else 3)
+    n = (250 if ctx.quick else 8000) * (1 if proved else 3)
     exprs, cases, jobs, seen = [], [], [], set()
     hist = {}
     for k in range(n):
